@@ -7,11 +7,14 @@ From HolpyV Require Import Kernel Sem SemLemmas Sound.
    model (every assignment of finite domains to type variables, every valuation
    of variables and schematic variables), if the premises are well-typed and
    valid and the result passes the checker's typing gate, the result is valid.
-   PARTIAL with respect to C01: proved for assume, implies_intr, implies_elim,
-   reflexive, symmetric, transitive, equal_intr (for "implies" at its declared
-   type), equal_elim and beta_conv; combination, abstraction, forall_intr,
-   forall_elim, subst_type and substitution are decided by correspondence and
-   finite-model search only in this build (see evidence: theorems_planned_missing). *)
+   Proved for 14 of the 15 primitive rules.  Side conditions that the proofs
+   need and the kernel does not enforce on rule arguments are explicit
+   hypotheses: [wfc] = the primitive constants "equals", "implies", "all" occur
+   at instances of their declared types (theory.check_term enforces this for
+   user input; the checker does not re-check rule arguments), and
+   [fx_occurs_svar fx = true] = the repaired occurs_var.
+   PARTIAL with respect to C01: substitution (Thm.substitution / Term.subst) is
+   decided by correspondence and finite-model search only. *)
 
 Theorem C01_assume_sound : forall DC IC A th, r_assume A = Some th -> valid DC IC th.
 Proof. exact sound_assume. Qed.
@@ -60,3 +63,32 @@ Theorem C01_beta_conv_sound : forall DC IC, Standard DC IC -> forall t th,
   r_beta_conv t = Some th -> wt th -> valid DC IC th.
 Proof. exact sound_beta_conv. Qed.
 Print Assumptions C01_beta_conv_sound.
+
+Theorem C01_combination_sound : forall DC IC, Standard DC IC -> forall th1 th2 th',
+  wt th1 -> wt th2 -> wfc th2 -> valid DC IC th1 -> valid DC IC th2 ->
+  r_combination th1 th2 = Some th' -> wt th' -> valid DC IC th'.
+Proof. exact sound_combination. Qed.
+Print Assumptions C01_combination_sound.
+
+Theorem C01_subst_type_sound : forall DC IC s th th',
+  valid DC IC th -> r_subst_type s th = Some th' -> valid DC IC th'.
+Proof. exact sound_subst_type. Qed.
+Print Assumptions C01_subst_type_sound.
+
+Theorem C01_forall_intr_sound : forall DC IC, Standard DC IC -> forall fx x th th',
+  fx_occurs_svar fx = true -> wt th -> valid DC IC th ->
+  r_forall_intr fx x th = Some th' -> wt th' -> valid DC IC th'.
+Proof. exact sound_forall_intr. Qed.
+Print Assumptions C01_forall_intr_sound.
+
+Theorem C01_abstraction_sound : forall DC IC, Standard DC IC -> forall fx x th th',
+  fx_occurs_svar fx = true -> wt th -> valid DC IC th ->
+  r_abstraction fx x th = Some th' -> wt th' -> valid DC IC th'.
+Proof. exact sound_abstraction. Qed.
+Print Assumptions C01_abstraction_sound.
+
+Theorem C01_forall_elim_sound : forall DC IC, Standard DC IC -> forall s th th',
+  wt th -> wfc th -> valid DC IC th ->
+  r_forall_elim s th = Some th' -> wt th' -> valid DC IC th'.
+Proof. exact sound_forall_elim. Qed.
+Print Assumptions C01_forall_elim_sound.
